@@ -13,7 +13,17 @@ open Pox Pox.Proto Pox.Packet Pox.Parse
         layer    = {"k":class,"parsed":bool,"raw":hex, attributes…}   (no "raw" for icmp: icmp.parse does not keep it)
         terminal = {"k":"none"} | {"k":"bytes","data":hex} | {"k":"foreign","cls":…,"raw":hex}
         pack / print are null when the chain ends in a foreign layer (outside the model)
+   "compact":true (jumbo frames: a 64 KB frame with a few hundred layers would be answered with hundreds of copies of itself):
+        every layer's "raw", a terminal's "data" and "pack" are given as [length, digest] (`digest`: Adler-32)
 -/
+
+/-- Adler-32 of a byte string (the harness computes `zlib.adler32` over the implementation's bytes) -/
+def digest (b : Bytes) : Nat :=
+  let (lo, hi) := b.foldl (fun (p : Nat × Nat) x => let lo := (p.1 + x.toNat) % 65521; (lo, (p.2 + lo) % 65521)) (1, 0)
+  hi * 65536 + lo
+
+/-- a byte string in an answer: hex, or [length, digest] in compact answers -/
+def rawJ (c : Bool) (b : Bytes) : J := if c then J.ofNats [b.length, digest b] else J.ofBytes b
 
 def optJ : TcpOpt → J
   | .eol => J.mk [("t", J.ofNat 0)]
@@ -100,41 +110,41 @@ def extJ : Ext → String × Bool × List (String × J)
         | some os => J.arr (os.map fun (c, d) => J.arr [J.ofNat c, J.ofBytes d])
         | none => J.null)])
 
-def layer (k : String) (parsed : Bool) (raw : Option Bytes) (attrs : List (String × J)) : J :=
-  J.mk ([("k", J.str k), ("parsed", J.bool parsed)] ++ (match raw with | some r => [("raw", J.ofBytes r)] | none => []) ++ attrs)
+def layer (c : Bool) (k : String) (parsed : Bool) (raw : Option Bytes) (attrs : List (String × J)) : J :=
+  J.mk ([("k", J.str k), ("parsed", J.bool parsed)] ++ (match raw with | some r => [("raw", rawJ c r)] | none => []) ++ attrs)
 
-def chainJ : Frame → List J
-  | .raw b => [J.mk [("k", J.str "bytes"), ("data", J.ofBytes b)]]
+def chainJ (z : Bool) : Frame → List J
+  | .raw b => [J.mk [("k", J.str "bytes"), ("data", rawJ z b)]]
   | .nil => [J.mk [("k", J.str "none")]]
-  | .unparsed c r => [layer c false (some r) [], J.mk [("k", J.str "none")]]
-  | .foreign c r => [J.mk [("k", J.str "foreign"), ("cls", J.str c), ("raw", J.ofBytes r)]]
-  | .eth h r n => layer "ethernet" true (some r) [("dst", J.ofBytes h.dst), ("src", J.ofBytes h.src), ("type", J.ofNat h.type)] :: chainJ n
-  | .vlan h r n => layer "vlan" true (some r) [("pcp", J.ofNat h.pcp), ("cfi", J.ofNat h.cfi), ("id", J.ofNat h.id),
-      ("eth_type", J.ofNat h.ethType)] :: chainJ n
-  | .llc h p r n => layer "llc" p (some r) [("dsap", J.ofOptNat h.dsap), ("ssap", J.ofOptNat h.ssap), ("control", J.ofOptNat h.control),
-      ("length", J.ofNat h.length), ("oui", optBytesJ h.oui), ("eth_type", J.ofNat h.ethType)] :: chainJ n
-  | .arp h r n => layer "arp" true (some r) [("hwtype", J.ofNat h.hwtype), ("prototype", J.ofNat h.prototype),
+  | .unparsed c r => [layer z c false (some r) [], J.mk [("k", J.str "none")]]
+  | .foreign c r => [J.mk [("k", J.str "foreign"), ("cls", J.str c), ("raw", rawJ z r)]]
+  | .eth h r n => layer z "ethernet" true (some r) [("dst", J.ofBytes h.dst), ("src", J.ofBytes h.src), ("type", J.ofNat h.type)] :: chainJ z n
+  | .vlan h r n => layer z "vlan" true (some r) [("pcp", J.ofNat h.pcp), ("cfi", J.ofNat h.cfi), ("id", J.ofNat h.id),
+      ("eth_type", J.ofNat h.ethType)] :: chainJ z n
+  | .llc h p r n => layer z "llc" p (some r) [("dsap", J.ofOptNat h.dsap), ("ssap", J.ofOptNat h.ssap), ("control", J.ofOptNat h.control),
+      ("length", J.ofNat h.length), ("oui", optBytesJ h.oui), ("eth_type", J.ofNat h.ethType)] :: chainJ z n
+  | .arp h r n => layer z "arp" true (some r) [("hwtype", J.ofNat h.hwtype), ("prototype", J.ofNat h.prototype),
       ("hwlen", J.ofNat h.hwlen), ("protolen", J.ofNat h.protolen), ("opcode", J.ofNat h.opcode),
       ("hwsrc", J.ofBytes h.hwsrc), ("protosrc", J.ofNat h.protosrc), ("hwdst", J.ofBytes h.hwdst),
-      ("protodst", J.ofNat h.protodst)] :: chainJ n
-  | .ipv4 h r n => layer "ipv4" true (some r) [("v", J.ofNat h.v), ("hl", J.ofNat h.hl), ("tos", J.ofNat h.tos),
+      ("protodst", J.ofNat h.protodst)] :: chainJ z n
+  | .ipv4 h r n => layer z "ipv4" true (some r) [("v", J.ofNat h.v), ("hl", J.ofNat h.hl), ("tos", J.ofNat h.tos),
       ("iplen", J.ofNat h.iplen), ("id", J.ofNat h.id), ("flags", J.ofNat h.flags), ("frag", J.ofNat h.frag),
       ("ttl", J.ofNat h.ttl), ("protocol", J.ofNat h.proto), ("csum", J.ofNat h.csum), ("srcip", J.ofNat h.src),
-      ("dstip", J.ofNat h.dst), ("raw_options", J.ofBytes h.opts)] :: chainJ n
-  | .udp h r n => layer "udp" true (some r) [("srcport", J.ofNat h.sport), ("dstport", J.ofNat h.dport),
-      ("len", J.ofNat h.len), ("csum", J.ofNat h.csum)] :: chainJ n
-  | .tcp h r n => layer "tcp" true (some r) [("srcport", J.ofNat h.sport), ("dstport", J.ofNat h.dport),
+      ("dstip", J.ofNat h.dst), ("raw_options", J.ofBytes h.opts)] :: chainJ z n
+  | .udp h r n => layer z "udp" true (some r) [("srcport", J.ofNat h.sport), ("dstport", J.ofNat h.dport),
+      ("len", J.ofNat h.len), ("csum", J.ofNat h.csum)] :: chainJ z n
+  | .tcp h r n => layer z "tcp" true (some r) [("srcport", J.ofNat h.sport), ("dstport", J.ofNat h.dport),
       ("seq", J.ofNat h.seq), ("ack", J.ofNat h.ack), ("off", J.ofNat h.off), ("res", J.ofNat h.res),
       ("flags", J.ofNat h.flags), ("win", J.ofNat h.win), ("csum", J.ofNat h.csum), ("urg", J.ofNat h.urg),
-      ("options", J.arr (h.opts.map optJ))] :: chainJ n
-  | .icmp h _ n => layer "icmp" true none [("type", J.ofNat h.type), ("code", J.ofNat h.code), ("csum", J.ofNat h.csum)] :: chainJ n
-  | .echo h r n => layer "echo" true (some r) [("id", J.ofNat h.id), ("seq", J.ofNat h.seq)] :: chainJ n
-  | .unreach h r n => layer "unreach" true (some r) [("unused", J.ofNat h.unused), ("next_mtu", J.ofNat h.nextMtu)] :: chainJ n
-  | .timeEx h r n => layer "time_exceeded" true (some r) [("unused", J.ofNat h.unused)] :: chainJ n
-  | .lldp ts p r => [layer "lldp" p (some r) [("tlvs", J.arr (ts.map tlvJ))], J.mk [("k", J.str "none")]]
+      ("options", J.arr (h.opts.map optJ))] :: chainJ z n
+  | .icmp h _ n => layer z "icmp" true none [("type", J.ofNat h.type), ("code", J.ofNat h.code), ("csum", J.ofNat h.csum)] :: chainJ z n
+  | .echo h r n => layer z "echo" true (some r) [("id", J.ofNat h.id), ("seq", J.ofNat h.seq)] :: chainJ z n
+  | .unreach h r n => layer z "unreach" true (some r) [("unused", J.ofNat h.unused), ("next_mtu", J.ofNat h.nextMtu)] :: chainJ z n
+  | .timeEx h r n => layer z "time_exceeded" true (some r) [("unused", J.ofNat h.unused)] :: chainJ z n
+  | .lldp ts p r => [layer z "lldp" p (some r) [("tlvs", J.arr (ts.map tlvJ))], J.mk [("k", J.str "none")]]
   | .ext x r n =>
     let (k, keeps, attrs) := extJ x
-    layer k true (if keeps then some r else none) attrs :: chainJ n
+    layer z k true (if keeps then some r else none) attrs :: chainJ z n
 
 def excJ (s : String) : J := J.mk [("exc", J.str s)]
 def knownJ (e : PErr) : List (String × J) :=
@@ -142,19 +152,19 @@ def knownJ (e : PErr) : List (String × J) :=
   | .known st => [("known", J.str st.name)]
   | _ => []
 
-def answer (cfg : Cfg) (d : Nat) (raw : Bytes) : J :=
+def answer (z : Bool) (cfg : Cfg) (d : Nat) (raw : Bytes) : J :=
   match parseEthernet cfg d raw with
   | .error e => J.mk ([("exc", J.str e.toString)] ++ knownJ e)
   | .ok f =>
     -- pack(): modelled for chains of phase-1 classes and mpls / eapol / eap behind the frame-level headers; str()/dump(): modelled for every chain without an opaque (MPTCP) layer
     let pk := if !f.packModelled then J.null else match packF none f with
-      | .ok b => J.ofBytes b
+      | .ok b => rawJ z b
       | .error e => excJ e.toString
     let pr := match printF cfg f with
       | .ok _ => J.str "ok"
       | .error (.unmodelled _) => J.null
       | .error e => excJ e.toString
-    J.mk [("chain", J.arr (chainJ f)), ("foreign", J.bool f.hasForeign), ("pack", pk), ("print", pr)]
+    J.mk [("chain", J.arr (chainJ z f)), ("foreign", J.bool f.hasForeign), ("pack", pk), ("print", pr)]
 
 def handle (j : J) : Except String J := do
   let op ← j.string "op"
@@ -177,12 +187,15 @@ def handle (j : J) : Except String J := do
     let d := match ← j.optNat "d" with
       | some d => d
       | none => budget raw
-    let a := answer cfg d raw
+    let z : Bool := match j.get? "compact" with
+      | some (J.bool true) => true
+      | _ => false
+    let a := answer z cfg d raw
     -- "core": true → also the answer of the phase-1 model (`Cfg.core`, the one `refines_c14` relates to C14's parser)
     match j.get? "core" with
     | some (J.bool true) =>
       match a with
-      | J.obj kv => pure (J.obj (kv ++ [("core", answer { Cfg.core with fix := { Fix.none with k1 := fx.k1 } } d raw)]))
+      | J.obj kv => pure (J.obj (kv ++ [("core", answer z { Cfg.core with fix := { Fix.none with k1 := fx.k1 } } d raw)]))
       | other => pure other
     | _ => pure a
   else throw s!"unknown op {op}"
